@@ -12,9 +12,12 @@ A case is a dict:
   exact    True: a Fraction-valued asn_func is passed to the real compute_raire_assertions
   order    None or a permutation of the candidates given as Contest(order=...) (search hint)
   second   True: the same Contest / cvrs objects were first used for a call with another winner
+  log      True: the call is made with log=True and a string sink as stream
   impl     {'out': [(kind, w, l, elim|None, votes_for_winner, votes_for_loser, difficulty)] | None, 'exc': str|None,
             'objs': the returned assertion objects (not serialised), 'cvrs': the CVR dict given to the code}
 """
+import contextlib
+import io
 import itertools
 import math
 import sys
@@ -268,7 +271,12 @@ def run_impl(case, rng=None):
         if case.get("second"):
             other = case["names"][(case["winner"] + 1) % case["n"]]
             Rm.compute_raire_assertions(contest, cvrs, other, fn, False, agap=0)
-        r = Rm.compute_raire_assertions(contest, cvrs, case["names"][case["winner"]], fn, False, agap=0)
+        if case.get("log"):      # logging on (to a sink; one log line goes to stdout whatever `stream` is)
+            sink = io.StringIO()
+            with contextlib.redirect_stdout(sink):
+                r = Rm.compute_raire_assertions(contest, cvrs, case["names"][case["winner"]], fn, True, stream=sink, agap=0)
+        else:
+            r = Rm.compute_raire_assertions(contest, cvrs, case["names"][case["winner"]], fn, False, agap=0)
         res["objs"] = r
         res["out"] = canon(r, case["names"])
         if res["out"] is None:
@@ -422,7 +430,8 @@ def gen_case(rng, n=None, maxb=60):
         order, ok = list(range(n)), "identity"
     return {"n": n, "names": rng.choice(NAME_SCHEMES)(n), "types": types, "nocontest": nocontest, "tot": tot,
             "winner": winner, "bp": rng.random() < 0.5, "exact": rng.random() < 0.5, "order": order,
-            "second": rng.random() < 0.1, "tag": f"{style}/{wk}/hint-{ok}", "possible_winners": winners}
+            "second": rng.random() < 0.1, "log": rng.random() < 0.03, "tag": f"{style}/{wk}/hint-{ok}",
+            "possible_winners": winners}
 
 
 def multisets(items, k):
@@ -483,7 +492,7 @@ def case_json(case):
             [[list(b), k] for b, k in case["types"]], "cvrs_without_contest": case.get("nocontest", 0),
             "tot_ballots": case["tot"], "winner_index": case["winner"], "asn_func": ("bp" if case["bp"] else "cp") +
             ("_fraction" if case["exact"] else "_estimate"), "order_hint": case.get("order"),
-            "second_call_on_same_objects": case.get("second", False), "tag": case.get("tag"),
+            "second_call_on_same_objects": case.get("second", False), "log": case.get("log", False), "tag": case.get("tag"),
             "impl_output": C.jsonable(o["out"]), "impl_exc": o["exc"]}
 
 
@@ -495,7 +504,7 @@ def case_from_json(j):
             "types": [(tuple(b), k) for b, k in j["ballot_types(indices into candidates, multiplicity)"]],
             "nocontest": j.get("cvrs_without_contest", 0), "tot": j["tot_ballots"], "winner": j["winner_index"],
             "bp": fn.startswith("bp"), "exact": fn.endswith("_fraction"), "order": j.get("order_hint"),
-            "second": j.get("second_call_on_same_objects", False), "tag": "replay/" + "/".join((j.get("tag") or "").split("/")[1:])}
+            "second": j.get("second_call_on_same_objects", False), "log": j.get("log", False), "tag": "replay/" + "/".join((j.get("tag") or "").split("/")[1:])}
 
 
 def replay_cases(ctx):
@@ -601,6 +610,8 @@ def stats(cases):
         inc(("bp" if c["bp"] else "cp") + ("/fraction" if c["exact"] else "/float"))
         if c.get("second"):
             inc("second call on the same Contest/cvrs")
+        if c.get("log"):
+            inc("log=True")
         if c.get("nocontest"):
             inc("CVRs lacking the contest")
         if c["tot"] > sum(k for _, k in c["types"]) + c.get("nocontest", 0):
